@@ -17,6 +17,8 @@ import (
 type Special struct {
 	Nonce uint64 `json:"nonce"`
 	Kind  string `json:"kind"` // see craft()
+	// Call > 0 (crowd runs with per-call targets): the kind is relative to the thresholds of call Call-1
+	Call int `json:"call,omitempty"`
 }
 
 // StubPlan describes the oracle.
@@ -47,10 +49,17 @@ type stub struct {
 	logCh   chan uint64
 }
 
-func newStub(plan *StubPlan, cc craftCtx) *stub {
+func newStub(plan *StubPlan, cc craftCtx, perCall ...craftCtx) *stub {
 	s := &stub{plan: plan, cc: cc, special: map[uint64][]int8{}, logCh: make(chan uint64, 4096)}
 	for _, sp := range plan.Specials {
-		s.special[sp.Nonce] = craft(cc, sp.Kind, kernel.Mix(plan.Seed, 77, sp.Nonce))
+		c := cc
+		if sp.Call > 0 && sp.Call <= len(perCall) {
+			c = perCall[sp.Call-1]
+		}
+		if _, dup := s.special[sp.Nonce]; dup && sp.Call > 0 {
+			continue // never replace a planted find by a near miss
+		}
+		s.special[sp.Nonce] = craft(c, sp.Kind, kernel.Mix(plan.Seed, 77, sp.Nonce))
 	}
 	return s
 }
